@@ -19,11 +19,11 @@ theorem cont_ifR {srt : Fun.IfSort} {a : BitVec 64} {t e : Fun.Term} {env : Fun.
     {z1 z2 : Core.Ident} {τ1 τ2 : Core.Ty} {v : Fun.Value} {V : CVal}
     (hgt : good p t = true) (hge : good p e = true)
     (hct : Compiled q i t c T) (hce : Compiled q i e c E) (hin : i ≤ n)
-    (he : EnvRel (GP p) q n (fv t ++ fv e) env ρ0) (hr : CRel (GP p) q n k c ρ0)
+    (he : EnvRel (GP p) p q n (fv t ++ fv e) env ρ0) (hr : CRel (GP p) p q n k c ρ0)
     (hbT : BoundOn (tfvStmt T []) ρ0) (hbE : BoundOn (tfvStmt E []) ρ0)
     (haT : AgreeOn (tfvStmt T []) ρ0 ρ) (haE : AgreeOn (tfvStmt E []) ρ0 ρ)
     (hl1 : Core.Env.lookup ρ z1 = .ok (.int a)) (hl2 : Core.Env.lookup ρ z2 = .ok V)
-    (hv : VRel (GP p) q n v V) :
+    (hv : VRel (GP p) p q n v V) :
     Chunk p q (R p q) true true μ (.ret v (.ifR srt a t e env :: k))
       ⟨.ifc (compileSort srt) (.var .prd z1 τ1) (.var .prd z2 τ2) T E, ρ, out, n⟩ := by
   cases hv with
@@ -49,10 +49,10 @@ theorem cont_ifZ {srt : Fun.IfSort} {t e : Fun.Term} {env : Fun.Env}
     {z1 : Core.Ident} {τ1 : Core.Ty} {v : Fun.Value} {V : CVal}
     (hgt : good p t = true) (hge : good p e = true)
     (hct : Compiled q i t c T) (hce : Compiled q i e c E) (hin : i ≤ n)
-    (he : EnvRel (GP p) q n (fv t ++ fv e) env ρ0) (hr : CRel (GP p) q n k c ρ0)
+    (he : EnvRel (GP p) p q n (fv t ++ fv e) env ρ0) (hr : CRel (GP p) p q n k c ρ0)
     (hbT : BoundOn (tfvStmt T []) ρ0) (hbE : BoundOn (tfvStmt E []) ρ0)
     (haT : AgreeOn (tfvStmt T []) ρ0 ρ) (haE : AgreeOn (tfvStmt E []) ρ0 ρ)
-    (hl1 : Core.Env.lookup ρ z1 = .ok V) (hv : VRel (GP p) q n v V) :
+    (hl1 : Core.Env.lookup ρ z1 = .ok V) (hv : VRel (GP p) p q n v V) :
     Chunk p q (R p q) true true μ (.ret v (.ifZ srt t e env :: k))
       ⟨.ifz (compileSort srt) (.var .prd z1 τ1) T E, ρ, out, n⟩ := by
   cases hv with
@@ -77,9 +77,9 @@ theorem cont_print {nl : Bool} {next : Fun.Term} {env : Fun.Env}
     {k : Fun.Stack} {c : Core.Term} {i n : Nat} {N : Core.Stmt} {ρ0 ρ : CEnv} {out : Out}
     {z1 : Core.Ident} {τ1 : Core.Ty} {v : Fun.Value} {V : CVal}
     (hg : good p next = true) (hcn : Compiled q i next c N) (hin : i ≤ n)
-    (he : EnvRel (GP p) q n (fv next) env ρ0) (hr : CRel (GP p) q n k c ρ0)
+    (he : EnvRel (GP p) p q n (fv next) env ρ0) (hr : CRel (GP p) p q n k c ρ0)
     (hb : BoundOn (tfvStmt N []) ρ0) (ha : AgreeOn (tfvStmt N []) ρ0 ρ)
-    (hl1 : Core.Env.lookup ρ z1 = .ok V) (hv : VRel (GP p) q n v V) :
+    (hl1 : Core.Env.lookup ρ z1 = .ok V) (hv : VRel (GP p) p q n v V) :
     Chunk p q (R p q) true true μ (.ret v (.print nl next env :: k))
       ⟨.print nl (.var .prd z1 τ1) N, ρ, out, n⟩ := by
   cases hv with
@@ -95,7 +95,7 @@ theorem cont_print {nl : Bool} {next : Fun.Term} {env : Fun.Env}
 /-- `exit □` -/
 theorem cont_exit {n : Nat} {ρ : CEnv} {out : Out} {ty : Core.Ty}
     {z1 : Core.Ident} {τ1 : Core.Ty} {v : Fun.Value} {V : CVal}
-    (hl1 : Core.Env.lookup ρ z1 = .ok V) (hv : VRel (GP p) q n v V) :
+    (hl1 : Core.Env.lookup ρ z1 = .ok V) (hv : VRel (GP p) p q n v V) :
     Chunk p q (R p q) true true μ (.ret v [.exitF]) ⟨.exit (.var .prd z1 τ1) ty, ρ, out, n⟩ := by
   cases hv with
   | int a =>
@@ -108,7 +108,7 @@ theorem cont_exit {n : Nat} {ρ : CEnv} {out : Out} {ty : Core.Ty}
 /-- the top-level continuation of `main` -/
 theorem cont_main {n : Nat} {ρ : CEnv} {out : Out} {ty : Core.Ty}
     {z1 : Core.Ident} {τ1 : Core.Ty} {v : Fun.Value} {V : CVal}
-    (hl1 : Core.Env.lookup ρ z1 = .ok V) (hv : VRel (GP p) q n v V) :
+    (hl1 : Core.Env.lookup ρ z1 = .ok V) (hv : VRel (GP p) p q n v V) :
     Chunk p q (R p q) true true μ (.ret v []) ⟨.exit (.var .prd z1 τ1) ty, ρ, out, n⟩ := by
   cases hv with
   | int a =>
@@ -134,16 +134,17 @@ theorem cont_ifL (hcod : CodOK p q)
     {k : Fun.Stack} {c : Core.Term} {i n : Nat} {B : Core.Term} {T E : Core.Stmt} {ρ0 ρ : CEnv}
     {out : Out} {z1 : Core.Ident} {τ1 : Core.Ty} {v : Fun.Value} {V : CVal}
     (hgb : good p b = true) (hgt : good p t = true) (hge : good p e = true)
+    (hbt : getType b = some .i64)
     {stb stb' : CompileState} (hcb : compile b .i64 stb = .ok (B, stb')) (hstb : StOK q stb')
     (htnb : TermNames b stb)
     (hct : Compiled q i t c T) (hce : Compiled q i e c E) (hin : i ≤ n)
-    (he : EnvRel (GP p) q n (fv b ++ fv t ++ fv e) env ρ0) (hr : CRel (GP p) q n k c ρ0)
+    (he : EnvRel (GP p) p q n (fv b ++ fv t ++ fv e) env ρ0) (hr : CRel (GP p) p q n k c ρ0)
     (hbB : BoundOn (tfvTerm B []) ρ0) (hbT : BoundOn (tfvStmt T []) ρ0)
     (hbE : BoundOn (tfvStmt E []) ρ0)
     (haB : AgreeOn (tfvTerm B []) ρ0 ρ) (haT : AgreeOn (tfvStmt T []) ρ0 ρ)
     (haE : AgreeOn (tfvStmt E []) ρ0 ρ)
     (hl1 : Core.Env.lookup ρ z1 = .ok V) (hz1 : z1.name = sig → z1.id < n)
-    (hv : VRel (GP p) q n v V) :
+    (hv : VRel (GP p) p q n v V) :
     Chunk p q (R p q) true true μ (.ret v (.ifL srt b t e env :: k))
       ⟨.ifc (compileSort srt) (.var .prd z1 τ1) B T E, ρ, out, n⟩ := by
   cases hv with
@@ -156,9 +157,9 @@ theorem cont_ifL (hcod : CodOK p q)
       have := hz1 (by rw [e]; rfl)
       rw [e] at this
       simp [sigmaName_id] at this
-    have hete : EnvRel (GP p) q n (fv t ++ fv e) env ρ0 := he.sub fun y hy => by
+    have hete : EnvRel (GP p) p q n (fv t ++ fv e) env ρ0 := he.sub fun y hy => by
       simp only [List.mem_append] at hy ⊢; rcases hy with h | h <;> simp [h]
-    refine operand_sim hcod b hgb (fun h => .ifc (compileSort srt) (.var .prd z1 τ1) h T E)
+    refine operand_sim hcod b hgb hbt (fun h => .ifc (compileSort srt) (.var .prd z1 τ1) h T E)
       (fun A hA => split_ifc2 rfl hA) hcb hstb htnb (he.sub fun y hy => by simp [hy]) hbB haB ?_ ?_
     · intro τ
       refine KRel.ifR (i := n) (ρ0 := ρ0) hgt hge (Nat.lt_succ_self n) hzne hl1 (hct.mono hin)
